@@ -117,6 +117,8 @@ type Opts struct {
 	Tag        string
 	NoMerge    bool
 	Admin      bool // also create / rename / delete extra keyvalue instances (delete + rename through the RPC-equivalent API)
+	AdminEvery int  // with Admin: one step in AdminEvery is an admin step (default 12)
+	NJWide     bool // neuronjson body ids of 1 to 5 digits (keys are decimal strings: numeric and string order differ), and ordered / range reads of them in the snapshot
 }
 
 type World struct {
@@ -136,13 +138,17 @@ type World struct {
 	allNJ      map[uint64]bool
 	allKV      map[string]bool
 	nextNJ     uint64
+	NJWide     bool
 	valSeq     int
 	Normalize  bool // snapshots are normalised for comparison across runs (uuids -> version ids, times masked)
 	NeedSettle bool // set by the last Step when it touched a type with background processing
 	LastOp     OpInfo
 	SnapTypes  map[string]bool // when set, snapshots only read these types (kv lm ann nj roi img)
 	admin      bool
+	adminEvery int
 	restricted bool // Opts.Types named a subset of the data types
+	Side       map[string]bool // root uuids of side repos created by admin steps and not yet deleted
+	tag        string
 	Extra      map[string]bool // extra keyvalue instances currently alive
 	nextra     int
 	Panics     []string // recovered-panic responses seen on well-formed requests (C20)
@@ -154,6 +160,15 @@ const volN = 64 // labelmap volume is volN^3 voxels at offset 0 (2x2x2 blocks of
 
 func (wd *World) on(t string) bool { return wd.has[t] }
 
+// Has reports whether the instance name (kv lm syn lsz nj roi img) exists in this world.
+func (wd *World) Has(inst string) bool {
+	switch inst {
+	case "syn", "lsz":
+		return wd.has["ann"]
+	}
+	return wd.has[inst]
+}
+
 // New creates a repo with one instance per selected type and ingests the initial label volume.
 func New(w *drv.Worker, r *rand.Rand, o Opts) (*World, error) {
 	cl := &dvc.Client{W: w}
@@ -164,6 +179,12 @@ func New(w *drv.Worker, r *rand.Rand, o Opts) (*World, error) {
 	wd := &World{W: w, C: cl, R: r, H: h, Root: h.Root, St: map[string]*nodeState{}, has: map[string]bool{},
 		allLabels: map[uint64]bool{}, allPts: map[[3]int]bool{}, allNJ: map[uint64]bool{}, allKV: map[string]bool{}, nextNJ: 1000}
 	wd.admin = o.Admin
+	wd.adminEvery = o.AdminEvery
+	if wd.adminEvery <= 0 {
+		wd.adminEvery = 12
+	}
+	wd.tag = o.Tag
+	wd.NJWide = o.NJWide
 	wd.Extra = map[string]bool{}
 	types := o.Types
 	wd.restricted = len(types) > 0
@@ -349,7 +370,7 @@ func (wd *World) Step() (string, error) {
 		u = open[wd.R.Intn(len(open))]
 	}
 	kind := "dag"
-	if wd.admin && wd.R.Intn(12) == 0 {
+	if wd.admin && wd.R.Intn(wd.adminEvery) == 0 {
 		desc, err = wd.adminStep()
 		wd.LastOp = OpInfo{Kind: "dag", Desc: desc}
 		return desc, err
@@ -659,6 +680,12 @@ func (wd *World) PlanNextLabel(u string, n int) *Plan {
 		}}
 }
 
+// PlanMaxLabel is POST maxlabel/<m>: it raises the informative per-version and repo-wide maximum label (ignored when not
+// greater); it hands out no id itself.
+func (wd *World) PlanMaxLabel(u string, m uint64) *Plan {
+	return &Plan{Kind: "maxlabel", Desc: fmt.Sprintf("POST lm/maxlabel/%d@%s", m, wd.short(u)), Req: drv.Req{Method: "POST", URL: fmt.Sprintf("/api/node/%s/lm/maxlabel/%d", u, m)}}
+}
+
 // ApplyPar records the outcome of a plan that was sent through Worker.Par.
 func (wd *World) ApplyPar(p *Plan, r drv.Resp) {
 	wd.Seq++
@@ -939,6 +966,16 @@ func (wd *World) njStep(u string) (string, error) {
 	case x < 38 || len(ids) == 0:
 		wd.nextNJ += uint64(1 + wd.R.Intn(5))
 		id := wd.nextNJ
+		if wd.NJWide {
+			for try := 0; try < 20; try++ {
+				mag := []uint64{1, 10, 100, 1000, 10000}[wd.R.Intn(5)]
+				cand := mag + uint64(wd.R.Int63n(int64(9*mag)))
+				if !wd.allNJ[cand] {
+					id = cand
+					break
+				}
+			}
+		}
 		body := fmt.Sprintf(`{"bodyid": %d, "type": "T%d", "n": %d, "tags": ["x","y"]}`, id, wd.R.Intn(4), wd.R.Intn(1000))
 		r, err := wd.do("POST", fmt.Sprintf("%skey/%d?u=user%d", base, id, wd.R.Intn(3)), []byte(body), fmt.Sprintf("POST nj/key/%d%s", id, at))
 		if err == nil && r.OK() {
@@ -1102,11 +1139,75 @@ func (wd *World) adminStep() (string, error) {
 	}
 	sort.Strings(names)
 	wd.Seq++
+	// side repos: whole repos created next to the workload's own and deleted again (the deletion removes the repo record,
+	// the id-map entries of its versions and, asynchronously, its data)
+	if y := wd.R.Intn(5); y < 2 {
+		var sides []string
+		for u := range wd.Side {
+			sides = append(sides, u)
+		}
+		sort.Strings(sides)
+		if len(sides) > 0 && wd.R.Intn(2) == 0 {
+			u := sides[wd.R.Intn(len(sides))]
+			err := wd.W.API("rpc.repo_delete", map[string]string{"uuid": u}, nil)
+			if err != nil {
+				if _, ok := err.(*drv.APIError); !ok {
+					return "admin repo delete", err
+				}
+				wd.note("repo delete refused: %v", err)
+				return "admin repo delete refused", nil
+			}
+			delete(wd.Side, u)
+			wd.note("delete side repo %s", u[:8])
+			if err := wd.W.Settle(); err != nil {
+				return "admin repo delete", err
+			}
+			return "admin repo delete", nil
+		}
+		wd.nextra++
+		u, err := wd.C.NewRepo(fmt.Sprintf("side-%s-%d", wd.tag, wd.nextra))
+		if err != nil {
+			if dvc.IsWorkerErr(err) {
+				return "admin repo create", err
+			}
+			return "admin repo create refused", nil
+		}
+		if wd.Side == nil {
+			wd.Side = map[string]bool{}
+		}
+		wd.Side[u] = true
+		// (a compound step: a worker that dies anywhere inside it must surface as an error of THIS step)
+		more := wd.R.Intn(2) == 0
+		if err := wd.C.NewInstance(u, "keyvalue", "skv", nil); err != nil {
+			if dvc.IsWorkerErr(err) {
+				return "admin repo create", err
+			}
+		} else {
+			if _, err := wd.W.Post("/api/node/"+u+"/skv/key/k", []byte("side")); err != nil {
+				return "admin repo create", err
+			}
+			if more {
+				if err := wd.C.Commit(u); err != nil {
+					if dvc.IsWorkerErr(err) {
+						return "admin repo create", err
+					}
+				} else if _, err := wd.C.NewVersion(u); err != nil && dvc.IsWorkerErr(err) {
+					return "admin repo create", err
+				}
+			}
+		}
+		wd.note("create side repo %s", u[:8])
+		return "admin repo create", nil
+	}
 	switch x := wd.R.Intn(3); {
 	case x == 0 || len(names) == 0:
 		wd.nextra++
 		name := fmt.Sprintf("x%d", wd.nextra)
-		if err := wd.C.NewInstance(wd.Root, "keyvalue", name, nil); err != nil {
+		at := wd.Root // instances can only be created through an uncommitted node
+		if op := wd.open(); len(op) > 0 {
+			at = op[wd.R.Intn(len(op))]
+		}
+		if err := wd.C.NewInstance(at, "keyvalue", name, nil); err != nil {
 			if dvc.IsWorkerErr(err) {
 				return "admin create", err
 			}
@@ -1115,7 +1216,9 @@ func (wd *World) adminStep() (string, error) {
 		}
 		wd.Extra[name] = true
 		for _, u := range wd.open() {
-			wd.W.Post("/api/node/"+u+"/"+name+"/key/k", []byte(name))
+			if _, err := wd.W.Post("/api/node/"+u+"/"+name+"/key/k", []byte(name)); err != nil {
+				return "admin create", err
+			}
 			break
 		}
 		wd.note("create instance %s", name)
